@@ -134,6 +134,56 @@ def rule_vm_fresh(ck, facts):
             ck.bad(R, "fresh|%s" % fl, "%s copies the scalar `%s` of the running machine into the resumed one (a register of the interpreter in the middle of a tick)" % (f.short, fl), f.where(s2))
 
 
+def rule_vm_carried(ck, facts):
+    """the storages that handles in the migrated state point into travel with it"""
+    import os
+    import tomllib
+
+    R = "C06.vm"
+    here = os.path.dirname(os.path.dirname(os.path.abspath(__file__)))
+    with open(os.path.join(here, "tables", "carried.toml"), "rb") as fh:
+        table = tomllib.load(fh).get("carried", [])
+    lang = facts.crate(LANG)
+    res = [f for f in lang.fns if "::runtime::vm::" in f.path and f.kind == "assoc" and any((callee(t) or "").endswith("build_state_storage_patch_plan") for _, t in f.calls())]
+    if len(res) != 1:
+        return
+    f = res[0]
+    di = DefIndex(f)
+    from ..rules.chainwalk import taint
+    # locals that derive from the running machine (argument 1)
+    T = taint(f, [1])
+    stored = {}
+    for b, st in f.all_stmts():
+        if st[KIND] != "a" or not st[4][1]:
+            continue
+        fl = [x for x in place_fields(st[4]) if x]
+        if not fl:
+            continue
+        name = fl[-1].split("::")[-1]
+        srcs = set()
+        _collect(st[5], srcs)
+        if srcs & T:
+            stored.setdefault(name, st)
+    n = 0
+    for e in table:
+        n += 1
+        key = "carried|%s" % e["field"]
+        if e["field"] in stored:
+            ck.ok(R, key, {"field": e["field"], "why": e["reason"]})
+        else:
+            ck.bad(R, key, "%s no longer carries `%s` over from the running machine (%s): the state words are copied verbatim, so a handle kept in a `self`/`mem` cell now points into an empty table — the first dsp call after swapping an unchanged program panics (`Invalid ArrayIdx`) or reads another object" % (f.short, e["field"], e["reason"]), f.where())
+    ck.floor(R, "carried_storages", n, 4)
+
+
+def _collect(x, out):
+    if isinstance(x, list):
+        if len(x) == 2 and isinstance(x[0], int) and isinstance(x[1], list):
+            out.add(x[0])
+            return
+        for y in x:
+            _collect(y, out)
+
+
 def rule_wasm(ck, facts):
     R = "C06.wasm"
     ck.rule(R, "WASM try_hot_swap: old state snapshot precedes the engine replacement; equal-layout branch clones the snapshot; every success path calls set_global_state_data; methods forwarding settings to self.engine are called after the replacement; a setting that try_hot_swap re-applies from a field of the runtime (the cache) is recorded in that field by every method that writes it to the running engine")
@@ -315,8 +365,12 @@ def run(ck, facts, tier):
 
     rule_vm(ck, facts)
     rule_vm_fresh(ck, facts)
+    rule_vm_carried(ck, facts)
     rule_wasm(ck, facts)
     c08.rule_apply(ck, facts)
     # only the converse clause is this property's: equal layouts keep the buffer (the forward clause is C07/C08's)
     c08.rule_fast_path(ck, facts, forward=False)
+    # the CLI hands an unchanged program over with equal layouts and a whole-storage copy patch: the patch path and
+    # the size of the buffer it reads from matter for this property too
+    c08.rule_source_size(ck, facts)
     ck.not_decided("sample-exact continuity across the swap; effects of re-running main (arrays, closures, delay write heads) — run-time histories")
